@@ -145,13 +145,26 @@ fn run(cx: &Cx) {
     let mut multi_total = 0usize;
     let mut max_orders_total = 0u64;
     let mut schedules_total = 0u64;
-    for (flavour, dynamic) in [("static", None), ("dynamic", Some(&dynamic_schema))] {
+    // a delegating extension switches resolve_list / Fields::add_set to their "extensions present" branches
+    struct Nop;
+    impl async_graphql::extensions::Extension for Nop {}
+    impl async_graphql::extensions::ExtensionFactory for Nop {
+        fn create(&self) -> Arc<dyn async_graphql::extensions::Extension> {
+            Arc::new(Nop)
+        }
+    }
+    let schema_ext = s1::builder().extension(Nop).finish();
+    let dynamic_ext = match agv_common::dynamic::build_with(&refs, agv_common::dynamic::Encoding::default(), |b| b.extension(Nop)) {
+        Ok(d) => d,
+        Err(e) => return cx.machinery_error(format!("dynamic twin of S1 (with extension) does not build: {e}")),
+    };
+    for (flavour, schema, dynamic) in [("static", &schema, None), ("static+extension", &schema_ext, None), ("dynamic", &schema, Some(&dynamic_schema)), ("dynamic+extension", &schema, Some(&dynamic_ext))] {
     // guards exist only in the derive schema
     let docs: Vec<&str> = docs.iter().copied().filter(|d| dynamic.is_none() || !d.contains("gnn")).collect();
     let groups: Mutex<HashMap<String, Group>> = Mutex::new(HashMap::new());
     let st = explore(
         &ExploreCfg { bounds: [0, faults, 0, 0], ..Default::default() },
-        &|ch: &mut Chooser| run_one(&refs, &schema, dynamic, &docs, ch, true),
+        &|ch: &mut Chooser| run_one(&refs, schema, dynamic, &docs, ch, true),
         &|_, r: Run| {
             cx.eval();
             cx.add_traces(1);
@@ -200,7 +213,7 @@ fn run(cx: &Cx) {
                 }
             }
             if r.gates_seen >= 2 {
-                cx.nontrivial(agv_engine::h64(&(r.doc, format!("{:?}", r.table), &r.schedule)));
+                cx.nontrivial(agv_engine::h64(&(flavour, r.doc, format!("{:?}", r.table), &r.schedule)));
             }
             let h = agv_engine::h64(&(r.doc, &r.schedule, format!("{:?}", r.table)));
             cx.sample_with(h, || json!({"query": text, "world": table_json(&r.table), "schedule": r.schedule, "data": obs.data}));
@@ -229,7 +242,7 @@ fn run(cx: &Cx) {
     cx.extra("schedules", json!(schedules_total));
     cx.extra("fault_bound", json!(faults));
     cx.assume("S1's resolvers are deterministic functions of (path, world); the scheduler is the only source of completion order (one schedule replayed twice gives identical observations, checked at start-up)");
-    cx.assume("both flavours: S1 (derive) and its dynamic twin");
+    cx.assume("four flavours: S1 (derive) and its dynamic twin, each without and with a delegating extension (the executor has separate code paths when extensions are present)");
 }
 
 fn replay(case: &J) -> String {
